@@ -130,4 +130,72 @@ theorem script_rt (ls : List (List Item)) (h : ScriptOk ls) : parseScript (scrip
   · intro l hl; have := script_depth ls l hl; omega
   · have := scriptText_length ls; omega
 
+
+/-! ## Rejections: the boundaries of the round-trip statements -/
+
+
+/-- a command line must not end in front of a `)`: `UnopenedSubshell` -/
+theorem commandLine_rparen (n : Nat) (l : List Item) (rest : List Char) (h : ProgramOk l rest) (hd : ldepth l ≤ n) :
+    parseCommandLine (parseCommand (n + 1)) (printList false l ++ ')' :: rest) = none := by
+  have hpc := parseCommand_pcOk n
+  have hrt := items_rt _ n hpc false (')' :: rest) (ends_amp _ (Or.inr ⟨_, rfl⟩) contOps (fun _ h => h))
+    (fun e => Bool.noConfusion e) (fun _ => ends_rparen rest contOps (fun _ h => h)) l h hd
+  have hlen := itemsRT_length _ false _ l hrt
+  rw [← printList_eq] at hlen
+  have hl := parseList_rt _ false (')' :: rest) (listEnd_rparen _ n hpc rest).1 l
+    ((printList false l ++ ')' :: rest).length + 2) false (by omega) hrt (fun _ => rfl)
+  rw [← printList_eq] at hl
+  simp only [Bool.false_eq_true, if_false, List.nil_append] at hl
+  unfold parseCommandLine
+  rw [hl]
+  simp [lexToken_rparen, Token.isOp]
+
+
+
+/-- `FdOutOfRange`: an IO_NUMBER above `i32::MAX` in front of a redirection operator is a syntax error
+    (the boundary of `FdOk`: 2147483647 is accepted, 2147483648 is not) -/
+theorem parseRedir_fd_out_of_range (n : Nat) (hn : 2147483647 < n) (c : Char) (body : List Char)
+    (hc : c = '<' ∨ c = '>') (sp : Bool) :
+    parseRedir ((if sp then [' '] else []) ++ (printNat n ++ c :: body)) = none := by
+  obtain ⟨d1, d2, d3⟩ := printNat_spec n
+  have hcE : Delim.token.Ends c := by
+    rcases hc with e | e <;> subst e <;> exact ⟨by decide, by decide⟩
+  have hwok : TokWordOk (digitsWord (printNat n)) (c :: body) := by
+    refine ⟨digitsWord_ok _ d1 _, ?_, ?_, ?_⟩
+    · cases hp : printNat n with
+      | nil => exact absurd hp d3
+      | cons x xs => simp [digitsWord]
+    · cases hp : printNat n with
+      | nil => exact absurd hp d3
+      | cons x xs =>
+        rw [hp] at d1
+        simp only [List.all_cons, Bool.and_eq_true] at d1
+        have := (digit_plain x d1.1).2.2.2.2.2.2.1
+        simp [digitsWord, NoTildeFront, this]
+    · rw [printWord_digitsWord]
+      cases hp : printNat n with
+      | nil => exact absurd hp d3
+      | cons x xs =>
+        rw [hp] at d1
+        simp only [List.all_cons, Bool.and_eq_true] at d1
+        have := (digit_plain x d1.1).2.2.2.2.2.2.2
+        simp [this]
+  have ht := lexToken_word_gen (digitsWord (printNat n)) (c :: body) hwok ⟨c, body, rfl, hcE⟩ sp
+  rw [printWord_digitsWord] at ht
+  have hna : nextIsAngle (c :: body) = true := by
+    rcases hc with e | e <;> subst e <;> simp [nextIsAngle, skipLC_cons_ne]
+  have hwe : (digitsWord (printNat n)).isEmpty = false := by
+    cases hp : printNat n with
+    | nil => exact absurd hp d3
+    | cons x xs => simp [digitsWord]
+  have hid : tokenId (digitsWord (printNat n)) (c :: body) = .ioNumber := by
+    simp [tokenId, hwe, wordLiteral_digitsWord, isKeyword_digits _ d1, d1, hna]
+  unfold parseRedir
+  rw [ht, hid]
+  simp only [fdOf, wordLiteral_digitsWord, d2]
+  rw [if_neg (by omega)]
+
+
+
+
 end YashModel.Syntax
